@@ -145,7 +145,7 @@ def used_code(name, size, noise):
                          rng=np.random.default_rng(1)).run(5)
         sim = SplittingSimulation(code, em, [MatchingDecoder(code, em, 0.3)], [0.3], n_init_runs=1,
                                   verbose=False)
-        sim._run(40)
+        sim.run(40)
     return code
 
 
